@@ -899,7 +899,8 @@ Proof.
   destruct (gd_core e (exp_fragment_arguments o) (exp_directives_on_directive_definitions o)
                     (length (sof_tok :: map sig ts))) as [G _].
   pose proof (g_fuel _ _ G (floor_of o (length (map sig ts))) (sof_tok :: map sig ts) (le_n _)) as F.
-  destruct (core e _ _ _ _) as [d r|x|]; [left; eauto|right; eauto|congruence].
+  cbv beta in F. set (res := core e _ _ _ _) in *.
+  destruct res as [d r|x|]; [left; eauto|right; eauto|exfalso; apply F; reflexivity].
 Qed.
 
 (* (c) token limit *)
@@ -990,7 +991,10 @@ Theorem parse_entry_layout e o ts1 ts2 :
   ((exists p, parse_entry e o ts1 = SyntaxErr p) <-> (exists p, parse_entry e o ts2 = SyntaxErr p)).
 Proof.
   intros E. unfold parse_entry. rewrite E.
-  destruct (core e _ _ _ _) as [d r|x|]; split; try tauto; split; intros [p H]; try discriminate; eauto.
+  destruct (core e _ _ _ _) as [d r|x|].
+  - split; [intros d0 c0; tauto|]. split; intros [p H]; discriminate.
+  - split; [intros d0 c0; split; discriminate|]. split; intros _; eexists; reflexivity.
+  - split; [intros d0 c0; split; discriminate|]. split; intros [p H]; discriminate.
 Qed.
 
 (* the index of the blamed token is layout independent as well *)
